@@ -557,7 +557,19 @@ def reshape(a, shape):
             return ix
         return SArr((z3.simplify(total),), lambda p: a.elem(*unflat(p)), a.kind,
                     nan=None if a.nan is None else (lambda p: a.nan(*unflat(p))), buf=a.buf, view_of=a)
-    shape = tuple(lift(s) for s in shape)
+    shape = tuple(z3.simplify(lift(s)) for s in shape)
+    if a.ndim == 2 and len(shape) == 3 and _eq(shape[0], a.shape_e[0]):
+        # (T, A*B) -> (T, A, B): C order keeps the leading axis, element (t,x,y) comes from (t, x*B + y)   (ASSUMED)
+        if not Ctx.spec:
+            C().oblige('reshape-size-agrees', shape[1] * shape[2] == a.shape_e[1], 'safety')
+        Bn = shape[2]
+        return SArr(shape, lambda t, x, y: a.elem(t, x * Bn + y), a.kind, buf=a.buf, view_of=a)
+    if a.ndim == 2 and len(shape) == 2 and concrete(a.shape_e[0]) == 1:
+        # (1, A*B) -> (A, B)
+        if not Ctx.spec:
+            C().oblige('reshape-size-agrees', shape[0] * shape[1] == a.shape_e[1], 'safety')
+        Bn = shape[1]
+        return SArr(shape, lambda x, y: a.elem(z3.IntVal(0), x * Bn + y), a.kind, buf=a.buf, view_of=a)
     flat = reshape(a, -1)
     if not Ctx.spec:
         tot = z3.IntVal(1)
@@ -972,3 +984,30 @@ def isscalar(x):
 
 
 _EXPORTS.update({'abs': abs_, 'sum': sum_, 'round': round_, 'all': all_, 'any': any_, 'max': amax, 'min': amin})
+
+
+def _guard_signatures():
+    """A call the shim's signature cannot bind (an argument the assumed contract does not model) is 'unsupported', never a code error."""
+    import functools
+    import inspect
+    import types
+    g = globals()
+    for name, fn in list(g.items()):
+        if isinstance(fn, types.FunctionType) and fn.__module__ == __name__ and not name.startswith('_') and name not in ('pi_axioms', 'sum_axioms', 'reify1'):
+            sig = inspect.signature(fn)
+
+            def make(fn, sig, name):
+                @functools.wraps(fn)
+                def w(*a, **k):
+                    try:
+                        sig.bind(*a, **k)
+                    except TypeError as ex:
+                        raise Unsupported('np.%s called with arguments outside its assumed contract: %s' % (name, ex))
+                    return fn(*a, **k)
+                return w
+            g[name] = make(fn, sig, name)
+    for k_, v in list(_EXPORTS.items()):
+        _EXPORTS[k_] = g.get(v.__name__, v)
+
+
+_guard_signatures()
